@@ -81,12 +81,21 @@ def tasks(tier, seed):
     for ping in (False, True):
         for tls in (False, True):
             for reaction in ("reply+eof", "silent"):
-                ts.append({"kind": "closer", "ping": ping, "tls": tls, "reaction": reaction, "line": False, "bound": 1 if tier == "quick" else 2,
-                           "name": "closer/sync/ping=%s/tls=%s/%s" % (ping, tls, reaction)})
+                # the closer arrives at a chosen virtual instant (idle select, the instant of a message / a ping / a pong, ...) and, from there,
+                # preempts the loop at every scheduling point
+                for delay in (0.0, 0.5, 1.0, 1.25, 1.5, 2.5, 4.0, 4.25, 5.0):
+                    if delay > 2.5 and not ping:
+                        continue
+                    if tier == "quick" and (tls or reaction == "silent") and delay not in (0.0, 1.0, 1.5, 4.0):
+                        continue
+                    ts.append({"kind": "closer", "ping": ping, "tls": tls, "reaction": reaction, "line": False, "delay": delay,
+                               "bound": 1 if tier == "quick" else 2, "name": "closer/sync/ping=%s/tls=%s/%s/delay=%.2f" % (ping, tls, reaction, delay)})
     line_cases = [(False, False, "reply+eof")] if tier == "quick" else [(p, t, r) for p in (False, True) for t in (False, True) for r in ("reply+eof", "silent")]
     for ping, tls, reaction in line_cases:
-        ts.append({"kind": "closer", "ping": ping, "tls": tls, "reaction": reaction, "line": True, "bound": 1,
-                   "name": "closer/line/ping=%s/tls=%s/%s" % (ping, tls, reaction)})
+        for delay in ((0.0, 1.0) if tier == "quick" else (0.0, 0.5, 1.0, 1.5, 4.0)):
+            for k in range(8):
+                ts.append({"kind": "closer", "ping": ping, "tls": tls, "reaction": reaction, "line": True, "bound": 1, "delay": delay, "shard": [k, 8],
+                           "name": "closer/line/ping=%s/tls=%s/%s/delay=%.2f/shard%d" % (ping, tls, reaction, delay, k)})
     return ts
 
 
@@ -130,7 +139,7 @@ def make_spec(desc):
         def mk(reaction=desc["reaction"]):
             return tnet.ServerPeer(script=traffic() + [(40.0, "eof", b"")], on_ping=("all", 0.25), on_close=reaction, close_latency=0.25)
         spec["attempts"] = [mk]
-        spec["closer"] = {}
+        spec["closer"] = {"delay": desc.get("delay", 0.0)}
         spec["line_level"] = desc["line"]
         if desc["line"]:
             # only the closer's arrival is explored line by line: the main/ping threads are preempted in favour of the closer, never the reverse
@@ -242,7 +251,8 @@ class Harness:
 def run_task(desc):
     res = runner.new_result()
     h = Harness(desc)
-    ex = Explorer(h, bound=desc["bound"], merge=False, max_execs=400_000, max_violations=None if desc["kind"] == "closer" else 40)
+    ex = Explorer(h, bound=desc["bound"], merge=False, max_execs=400_000, max_violations=None if desc["kind"] == "closer" else 40,
+                  shard=tuple(desc["shard"]) if desc.get("shard") else None)
     ex.explore()
     runner.add_explorer(res, ex)
     res["distinct"] = ex.execs
